@@ -65,6 +65,28 @@ class KindVal(Model):
         return r if op is ast.Eq else SBool(z3.Not(r.e))
 
 
+    def m_getattr(self, ex, st, name, node):
+        if name == 'lower':
+            return Method(lambda ex_, st_, args, kwargs, node_: KindLower(self.nid))
+        raise NotInSubset(f'kind.{name}')
+
+
+HASDFF, HASLATCH = z3.Function('KIND_HAS_dff', I, B), z3.Function('KIND_HAS_latch', I, B)
+
+
+class KindLower(Model):
+    """node.kind.lower(): only the two substring tests that define a state element are modelled (one free predicate per node each)"""
+    def __init__(self, nid):
+        self.nid = nid
+
+    def m_contains(self, ex, st, a, node):
+        if a == 'dff':
+            return SBool(HASDFF(self.nid))
+        if a == 'latch':
+            return SBool(HASLATCH(self.nid))
+        raise NotInSubset('substring test on a node kind other than dff / latch')
+
+
 class NameVal(Model):
     def __init__(self, e):
         self.e = e
@@ -817,6 +839,202 @@ def line_order_lemmas():
         yield 'mustfail:CNTY is constant', [cy_step], CNTY(k2 + 1) == CNTY(k2), 'refuted'
     return Lemmas('lemma:CONNPINS and CNTY monotone (induction on the upper index)', build,
                   note='justifies the two assumed monotonicity clauses of the topological_line_order contract; CONNPINS(n,p) >= 0 is part of its recurrence axiom')
+
+
+# ------------------------------------------------------------------------------------------- topological_order_with_level (C17)
+# "reported levels equal the longest combinational distance from a source".  topological_order() enters as a node sequence NODESEQ(0..m) with
+# the guarantees of its own (bounded) contract as requires: nodes of the circuit, each at most once, every connected driver of a node that is
+# neither a state element nor without inputs is yielded earlier (POSOF).  Spec, for the yielded nodes: LEVEL(n) = 0 if n has no connected input
+# or is a state element, else 1 + MAXD(n) with MAXD(n) the maximum of LEVEL over the drivers of the connected inputs (upper bound + witness WP).
+NOIN = z3.Function('NOIN', I, B)
+WNE, WP, POSOF = z3.Function('WNE', I, I), z3.Function('WP', I, I), z3.Function('POSOF', I, I)
+LEVEL, MAXD = z3.Function('LEVEL', I, I), z3.Function('MAXD', I, I)
+
+
+def level_config():
+    from pyvc.models_obj import SObj
+
+    class NodeSeq(Model):
+        def __init__(self, m):
+            self.m = m
+
+        def m_call(self, ex, st, args, kwargs, node):
+            return self
+
+        def m_iter(self, ex, st, node):
+            return SymIter(SInt(self.m), lambda ex_, st_, k: NodeRef(NODESEQ(to_int(k))))
+
+    class Nodes(Model):
+        def m_len(self, ex, st, node):
+            return st.heap[('C', 'nodes_len')]
+
+    class AllNoneIns(Model):
+        def __init__(self, nid):
+            self.nid = nid
+
+    class DrvIdx(Model):
+        def __init__(self, nid):
+            self.nid = nid
+
+    class Gather(Model):
+        def __init__(self, nid):
+            self.nid = nid
+
+        def m_getattr(self, ex, st, name, node):
+            if name != 'max':
+                raise NotInSubset(f'array.{name}')
+
+            def mx(ex_, st_, args, kwargs, node_):
+                if args or kwargs:
+                    raise NotInSubset('max with arguments')
+                v, nid = ex_.g['v0'], self.nid
+                ex_.prove(st_, 'no-exception:ValueError max() of an empty selection (the node has a connected input)', SBool(z3.Not(NOIN(nid))), node_)
+                ex_.assumed.add('numpy: a[list of indices].max() is the maximum of the selected elements')
+                m = ex_.fv('max', 'int').e
+                p0 = ex_.fv('argmax_pin', 'int').e
+                p = z3.Int('p!mx')
+                LV = st_.heap['LV']
+                sel = lambda q: LV[v.Ni[v.Ld[v.IN[nid][q]]]]
+                st_.assume(SBool(z3.ForAll([p], z3.Implies(z3.And(0 <= p, p < v.IL[nid], v.IN[nid][p] != NONE), sel(p) <= m))))
+                st_.assume(SBool(z3.And(0 <= p0, p0 < v.IL[nid], v.IN[nid][p0] != NONE, sel(p0) == m)))
+                return SInt(m)
+            return Method(mx)
+
+    class LevelArr(Model):
+        def m_binop(self, ex, st, op, a, b, node):
+            if op is ast.Sub and a is self and b == 1 and st.heap.get('LV_fresh'):
+                st.heap['LV'] = z3.K(I, z3.IntVal(-1))
+                st.heap['LV_fresh'] = False
+                return self
+            raise NotInSubset('arithmetic on the level array')
+
+        def m_getitem(self, ex, st, idx, node):
+            v = ex.g['v0']
+            if isinstance(idx, DrvIdx):
+                p = z3.Int('p!gi')
+                nid = idx.nid
+                d = v.Ld[v.IN[nid][p]]
+                ex.prove(st, 'no-exception:IndexError level[driver indices]', SBool(z3.ForAll([p], z3.Implies(z3.And(0 <= p, p < v.IL[nid], v.IN[nid][p] != NONE),
+                                                                                                           z3.And(0 <= v.Ni[d], v.Ni[d] < v.NN)))), node)
+                return Gather(nid)
+            raise NotInSubset('read of the level array')
+
+        def m_setitem(self, ex, st, idx, val, node):
+            v = ex.g['v0']
+            if not isinstance(idx, NodeRef):
+                raise NotInSubset('write to the level array at something other than a node')
+            i = v.Ni[idx.oid]
+            ex.prove(st, 'no-exception:IndexError level[n]', SBool(z3.And(0 <= i, i < v.NN)), node)
+            st.heap['LV'] = z3.Store(st.heap['LV'], i, to_int(val))
+
+    def prims(globs):
+        def zeros(ex, st, args, kwargs, node):
+            st.heap['LV'] = z3.K(I, z3.IntVal(0))
+            st.heap['LV_fresh'] = True
+            return LevelArr()
+
+        def all_(ex, st, args, kwargs, node):
+            if len(args) == 1 and isinstance(args[0], AllNoneIns):
+                return SBool(NOIN(args[0].nid))
+            raise NotInSubset('all() of this value')
+        return {globs['np'].zeros: zeros, all: all_}
+
+    def comp_hook(ex, st, n):
+        if len(n.generators) != 1:
+            return NotImplemented
+        g = n.generators[0]
+        if not isinstance(g.target, ast.Name):
+            return NotImplemented
+        it = ex.ev(st, g.iter)
+        if not isinstance(it, PinList) or it.which != 'ins':
+            return NotImplemented
+        t = g.target.id
+        elt, ifs = ast.unparse(n.elt), [ast.unparse(c) for c in g.ifs]
+        if isinstance(n, ast.GeneratorExp) and elt == f'{t} is None' and not ifs:
+            return AllNoneIns(it.nid)
+        if isinstance(n, ast.ListComp) and elt == f'{t}.driver.index' and ifs == [f'{t} is not None']:
+            return DrvIdx(it.nid)
+        return NotImplemented
+
+    def src(n):
+        return z3.Or(NOIN(n), HASDFF(n), HASLATCH(n))
+
+    def setup(ex):
+        st = fresh_state(ex)
+        v = V(st)
+        m = ex.fv('n_yielded_nodes', 'int').e
+        k, k2, n, p = z3.Ints('k k2 n p')
+        nk = NODESEQ(k)
+        drv = v.Ld[v.IN[nk][p]]
+        st.assume(SBool(m >= 0))
+        st.assume(SBool(z3.ForAll([n], v.IL[n] >= 0)))
+        # definition of "no connected input"
+        st.assume(SBool(z3.ForAll([n, p], z3.Implies(z3.And(NOIN(n), 0 <= p, p < v.IL[n]), v.IN[n][p] == NONE))))
+        st.assume(SBool(z3.ForAll([n], z3.Implies(z3.Not(NOIN(n)), z3.And(0 <= WNE(n), WNE(n) < v.IL[n], v.IN[n][WNE(n)] != NONE)))))
+        # requires (contract of topological_order, bounded evidence): nodes of the circuit, each at most once, drivers of non-source nodes earlier
+        st.assume(SBool(z3.ForAll([k], z3.Implies(z3.And(0 <= k, k < m), v.inN(nk)))))
+        st.assume(SBool(z3.ForAll([k, k2], z3.Implies(z3.And(0 <= k, k < k2, k2 < m), NODESEQ(k) != NODESEQ(k2)))))
+        st.assume(SBool(z3.ForAll([k, p], z3.Implies(z3.And(0 <= k, k < m, z3.Not(src(nk)), 0 <= p, p < v.IL[nk], v.IN[nk][p] != NONE),
+                                                     z3.And(drv != NONE, 0 <= POSOF(drv), POSOF(drv) < k, NODESEQ(POSOF(drv)) == drv)))))
+        # spec: longest combinational distance from a source, for the yielded nodes
+        st.assume(SBool(z3.ForAll([k], z3.Implies(z3.And(0 <= k, k < m), LEVEL(nk) == z3.If(src(nk), 0, 1 + MAXD(nk))))))
+        st.assume(SBool(z3.ForAll([k, p], z3.Implies(z3.And(0 <= k, k < m, z3.Not(src(nk)), 0 <= p, p < v.IL[nk], v.IN[nk][p] != NONE), LEVEL(drv) <= MAXD(nk)))))
+        wp = WP(nk)
+        st.assume(SBool(z3.ForAll([k], z3.Implies(z3.And(0 <= k, k < m, z3.Not(src(nk))),
+                                                  z3.And(0 <= wp, wp < v.IL[nk], v.IN[nk][wp] != NONE, LEVEL(v.Ld[v.IN[nk][wp]]) == MAXD(nk))))))
+        st.heap['LV'] = z3.Array('LV_garbage', I, I)
+        st.heap['LV_fresh'] = False
+        st.heap['ylogN'], st.heap['ylogL'] = z3.Array('ylogN0', I, I), z3.Array('ylogL0', I, I)
+        st.heap['ylen'] = SInt(z3.IntVal(0))
+        st.env['self'] = SObj.new(st, 'self', topological_order=NodeSeq(m), nodes=Nodes())
+        ex.readonly.add(('self', 'topological_order'))
+        ex.readonly.add(('self', 'nodes'))
+        ex.g = dict(m=m, v0=v)
+        return st
+
+    def yield_hook(ex, st, val, node):
+        if not (isinstance(val, tuple) and len(val) == 2 and isinstance(val[0], NodeRef)):
+            ex.prove(st, 'pairs (node, level) are yielded', False, node)
+            return
+        n = to_int(st.heap['ylen'])
+        st.heap['ylogN'] = z3.Store(st.heap['ylogN'], n, val[0].oid)
+        st.heap['ylogL'] = z3.Store(st.heap['ylogL'], n, to_int(val[1]))
+        st.heap['ylen'] = SInt(n + 1)
+
+    def clauses(ex, st, k):
+        v = ex.g['v0']
+        YN, YL, yl, LV = st.heap['ylogN'], st.heap['ylogL'], to_int(st.heap['ylen']), st.heap['LV']
+        j = z3.Int('j')
+        return [('E1:one pair per node passed so far', yl == k),
+                ('E2:the j-th pair is the j-th node of the topological order with its longest combinational distance from a source',
+                 z3.ForAll([j], z3.Implies(z3.And(0 <= j, j < k), z3.And(YN[j] == NODESEQ(j), YL[j] == LEVEL(NODESEQ(j)))))),
+                ('E3:the level array holds the level of every node passed so far', z3.ForAll([j], z3.Implies(z3.And(0 <= j, j < k), LV[v.Ni[NODESEQ(j)]] == LEVEL(NODESEQ(j)))))]
+
+    def inv(ex, st):
+        if not isinstance(st.env.get('level'), LevelArr):
+            yield 'level is the array created before the loop', False
+            return
+        for nm, c in clauses(ex, st, to_int(st.env['__k0'])):
+            yield nm, SBool(c)
+
+    def post(ex, st):
+        for nm, c in clauses(ex, st, ex.g['m']):
+            yield nm.split(':', 1)[1].replace('passed so far', 'of the topological order'), SBool(c)
+        j = z3.Int('j')
+        ex.prove(st, 'mustfail:every reported level is 0', SBool(z3.ForAll([j], z3.Implies(z3.And(0 <= j, j < ex.g['m']), st.heap['ylogL'][j] == 0))), ex.fn, expect='refuted')
+        ex.prove(st, 'mustfail:nothing is ever yielded', SBool(to_int(st.heap['ylen']) == 0), ex.fn, expect='refuted')
+    contract = {'post': post, 'yield_hook': yield_hook, 'comp_hook': comp_hook, 'merge_ifs': True,
+                'loops': {0: {'inv': inv, 'modifies': ['LV', 'ylogN', 'ylogL', 'ylen'], 'kinds': {'n': 'keep', 'l': 'int'}}}}
+    cfg = Config('any topological node sequence, any pin lists', contract, setup, None)
+    cfg.prims_fn = prims
+    return cfg
+
+
+def targets_level():
+    cfg = level_config()
+    return [Target('circuit', 'Circuit.topological_order_with_level', [cfg], prims=cfg.prims_fn, instantiate='fallback',
+                   note='generator: yields are a ghost sequence; topological_order() enters as a node sequence with the guarantees of its (bounded) contract as requires; '
+                        'the two comprehensions over n.ins are modelled as one value each (comp_hook); numpy max() by an assumed contract')]
 
 
 def targets_c17():
